@@ -24,6 +24,8 @@ for d in sorted(glob.glob(os.path.join(ROOT, 'seeded', 'C*', '[mnp]*'))):
         how = ('failing input' if not any('no-failing-input-found' in l for l in vl) else 'no-failing-input-found') + (' (' + ','.join(kinds) + ')' if kinds else '')
     elif 'caught' in res:
         how = 'MISSED'
+    if res.get('stale'):
+        how = 'superseded (' + res['stale'].split(';')[-1].strip() + ')'
     hist = HIST.get(prop + '/' + k, [])
     rows.append((prop, k, (meta.get('title') or meta.get('what_it_breaks') or '')[:110].replace('|', '/').replace('\n', ' '),
                  (meta.get('needs_to_manifest') or '')[:140].replace('|', '/').replace('\n', ' '),
